@@ -20,6 +20,8 @@ var allSpecs = []HarnessSpec{
 	{Prop: "C07", Func: "ZZ_C07_Concurrency", Tag: "shape=1", POR: true, Replay: "native", Twin: true, MustReach: []string{"independent-deps-overlap"}, Params: map[string]int{"shape": 1, "maxconc": 2, "__coarse": 1}},
 	{Prop: "C07", Func: "ZZ_C07_Concurrency", Tag: "shape=2", POR: true, Replay: "native", Params: map[string]int{"shape": 2, "maxconc": 2, "__coarse": 1}},
 	{Prop: "C07", Func: "ZZ_C07_CallLimit", Replay: "native", Twin: true},
+	{Prop: "C11", Func: "ZZ_C11_DynamicVar", Replay: "native", Twin: true},
+	{Prop: "C11", Func: "ZZ_C11_Isolation", Replay: "native", Twin: true},
 	{Prop: "C13", Func: "ZZ_C13_Guards", POR: true, Replay: "native", Twin: true, Params: map[string]int{"__coarse": 1}},
 	{Prop: "C14", Func: "ZZ_C14_Defer", POR: true, Replay: "native", Twin: true, Params: map[string]int{"__coarse": 1}},
 	{Prop: "C08", Pkg: "taskfile/ast", Func: "ZZ_C08_DeepCopy", Replay: "native"},
